@@ -35,9 +35,10 @@ GRAPHS3 = [
 
 CONFIGS = {
     'C09': {
-        'quick': [dict(mode='work', workers=2, items=2, steps=29), dict(mode='work', workers=1, items=2, steps=22)],
+        'quick': [dict(mode='work', workers=2, items=2, steps=29), dict(mode='work', workers=1, items=2, steps=22),
+                  dict(mode='work', workers=3, items=3, steps=48, graph='I=100,G=011000000')],
         'thorough': [dict(mode='work', workers=2, items=2, steps=29), dict(mode='work', workers=1, items=2, steps=22),
-                     dict(mode='work', workers=3, items=2, steps=37),
+                     dict(mode='work', workers=3, items=2, steps=37), dict(mode='work', workers=3, items=3, steps=48, graph='I=100,G=011000000'),
                      ] + [dict(mode='work', workers=2, items=3, steps=40, graph=g) for g in GRAPHS3],
     },
     'C10': {
@@ -85,7 +86,7 @@ OUTSIDE = {
 
 BOUNDS = {
     'C09': {
-        'quick': '2 workers (Do(2, f)) x 2 items and 1 worker x 2 items (22 transitions), every item graph (f(i) adds j iff G[i][j], G symbolic) and every set of initial adds; all schedules, rand.Intn picks and Signal wake-up choices up to 29 transitions (the unwinding assertion shows every schedule has finished by then)',
+        'quick': '2 workers (Do(2, f)) x 2 items and 1 worker x 2 items (22 transitions), every item graph (f(i) adds j iff G[i][j], G symbolic) and every set of initial adds; all schedules, rand.Intn picks and Signal wake-up choices up to 29 transitions (the unwinding assertion shows every schedule has finished by then); 3 workers x 3 items on the fan-out graph (item 0 adds items 1 and 2; 48 transitions); besides safety, deadlock and unwinding, a lost-wake-up query: no state with the mutex free in which a runner sleeps while more items are queued than runners have been woken',
         'thorough': 'additionally 3 workers x 2 items (37 transitions) and 2 workers x 3 items over six fixed item graphs (independent, fan-out, chain, join, cycle, complete; 40 transitions each)',
     },
     'C10': {
